@@ -1,5 +1,5 @@
 (* AdaptersProofs.v — consequences of the invariants of the callback-adapter model (AdaptersInv.v, AdaptersStep*.v). *)
-From Cocls Require Import Base BaseProofs AdaptersDefs AdaptersInv AdaptersStep0 AdaptersStep1 AdaptersStep2.
+From Cocls Require Import Base BaseProofs AdaptersDefs AdaptersInv AdaptersStep0 AdaptersStep1 AdaptersStep2 AdaptersLog AdaptersWeight.
 Require Import ZifyBool.
 Local Open Scope nat_scope.
 
@@ -15,53 +15,6 @@ Qed.
 Theorem inv_reachable c s : valid c = true -> reachable c s -> Inv c s.
 Proof. intros V R. induction R; [apply inv_init; exact V|apply inv_step; assumption]. Qed.
 
-(* ---------- the event log has exactly the shape the counters dictate ---------- *)
-
-Lemma loginv_init c : LogInv c (init c).
-Proof. exists 0, 0, 0. cbn. rewrite andb_false_r. reflexivity. Qed.
-
-Lemma loginv_step c s i : Inv c s -> LogInv c s -> enabled s i = true -> LogInv c (fst (tstep c s i)).
-Proof.
-  intros I (t1 & t2 & t3 & L) E. unfold tstep, enabled in *.
-  destruct I as [I1 I2 I3 I4 I5 I6 I7 I8 I9 I10 I11 I12 I13 I14 I15 I16 I17 I18 I19 I20 I21 I22 I23 I24 I25 I26 I27 I28 I29 I30 I31 I32 I33 I34 I35].
-  unfold N, expected in *.
-  assert (CV : cv c <= 1) by (unfold cv, b2n; destruct (is_conv c); lia).
-  assert (NF1 : nfire s <= 1) by (destruct (slot s); cbn [rdy] in I6; lia).
-  assert (CVN : cv c * nfire s <= nfire s) by (unfold cv, b2n; destruct (is_conv c); lia).
-  unfold LogInv, expected.
-  destruct i as [|[|[|i]]]; cbn [thr] in *; [| | |discriminate].
-  all: dth s.
-  all: destruct ins; unfold exec, fire, deliver.
-  all: red1; dflags s; red1.
-  all: try (exists t1, t2, t3; exact L).
-  all: redch.
-  (* a successful claim changes the payload, but nothing has been logged yet *)
-  all: try (specialize (I20 eq_refl); rewrite I20 in *; cbn [isv] in *;
-            assert (NF : nfire s = 0) by lia; assert (NC : nconv s = 0) by lia; assert (ND : ndeliv s = 0) by lia;
-            rewrite NF, NC, ND in *; cbn [Nat.eqb andb app] in *; rewrite andb_false_r in *;
-            exists 0, 0, 0; exact L).
-  all: try (dpay s; red1).
-  all: try match goal with g : bool |- _ => destruct g; red1 end.
-  all: try (exists t1, t2, t3; exact L).
-  (* completions that do not log a callback *)
-  all: try (unfold atomic_cb in *; rewrite AD in *; cbn [has_cb andb] in *; exists t1, t2, t3; exact L).
-  (* completions with a user callback *)
-  all: try (assert (NF : nfire s = 0) by lia; rewrite NF in *; cbn [Nat.eqb andb] in *;
-            rewrite Nat.mul_0_r in I10; assert (FR : frees s = 0) by lia;
-            rewrite andb_false_r in L; rewrite andb_true_r;
-            exists t1, t2, (S (clk s)); rewrite L; rewrite <- !app_assoc; cbn [app];
-            unfold atomic_cb, cb_log, hb; rewrite AD, I9, FR; unfold hb; rewrite AD; reflexivity).
-  (* deliveries and conversions: only the converter adapter has them *)
-  all: assert (CV1 : cv c = 1) by lia.
-  all: unfold cv, is_conv, atomic_cb in *; destruct (c_ad c) eqn:AD; try discriminate; cbn [has_cb andb b2n Nat.mul] in *.
-  all: try (assert (ND : ndeliv s = 0) by lia; assert (OP : opayload s = conv_result c (payload s)) by (apply I17; lia);
-            rewrite ND, OP in *; cbn [Nat.eqb] in *; exists t1, (S (clk s)), t3; rewrite L, !app_nil_r; reflexivity).
-  all: try (assert (NC : nconv s = 0) by (cbn [isv] in I18; lia);
-            assert (ND : ndeliv s = 0) by lia;
-            rewrite NC, ND in *; cbn [Nat.eqb app] in *; exists (S (clk s)), t2, t3; rewrite L;
-            unfold conv_log; cbn [conv_result app map]; reflexivity).
-Qed.
-
 Theorem loginv_reachable c s : valid c = true -> reachable c s -> LogInv c s.
 Proof.
   intros V R. induction R; [apply loginv_init|].
@@ -72,26 +25,40 @@ Qed.
 (* no deadlock: when no thread can move, all threads have run to completion *)
 Theorem terminal_done c s : valid c = true -> reachable c s -> terminal s -> th0 s = [] /\ th1 s = [] /\ th2 s = [].
 Proof.
-  intros V R T. pose proof (inv_reachable c s V R) as I. pose proof (i_park c s I) as I7. pose proof (i_xw c s I) as I8.
+  intros V R T. pose proof (inv_reachable c s V R) as I.
   unfold terminal, all_enabled, enabled in T. cbn [thr] in T.
   apply app_eq_nil in T. destruct T as [T0 T]. apply app_eq_nil in T. destruct T as [T1 T2].
   assert (A : th0 s = []).
-  { destruct (th0 s) as [|ins rest]; [reflexivity|].
-    destruct ins; cbn [cnt p_xw] in I8; try discriminate; lia. }
-  rewrite A in *. cbn [cnt Nat.add] in *.
-  assert (X : forall l, (if match l with [] => false | IXWait :: _ => parked s | _ :: _ => true end then [0] else []) = [] \/
-                         (if match l with [] => false | IXWait :: _ => parked s | _ :: _ => true end then [1] else []) = [] \/
-                         (if match l with [] => false | IXWait :: _ => parked s | _ :: _ => true end then [2] else []) = [] ->
-                         cnt p_xw l = 0 -> l = []).
-  { intros l H Z. destruct l as [|ins rest]; [reflexivity|].
-    destruct ins; cbn [cnt p_xw] in Z; try lia; destruct H as [H|[H|H]]; discriminate. }
-  destruct (parked s) eqn:P.
-  - split; [reflexivity|]. split.
-    + destruct (th1 s) as [|ins rest]; [reflexivity|]. destruct ins; discriminate.
-    + destruct (th2 s) as [|ins rest]; [reflexivity|]. destruct ins; discriminate.
-  - cbn [b2n] in I7. specialize (I7 eq_refl). split; [reflexivity|]. split.
-    + apply X; [right; left; exact T1|lia].
-    + apply X; [right; right; exact T2|lia].
+  { pose proof (i_xw c s I) as I8. pose proof (i_ow0 c s I) as W0.
+    destruct (th0 s) as [|ins rest]; [reflexivity|].
+    destruct ins; cbn [cnt p_xw p_ow] in I8, W0; try discriminate; lia. }
+  pose proof (i_park c s I) as I7. rewrite A in I7. cbn [cnt Nat.add] in I7.
+  assert (B : th1 s = []).
+  { pose proof (i_ow1 c s I) as W1.
+    destruct (th1 s) as [|ins rest]; [reflexivity|].
+    destruct ins; cbn [cnt p_xw p_ow] in I7, W1; try discriminate; try lia.
+    destruct (parked s); [discriminate|]. cbn [b2n] in I7. specialize (I7 eq_refl). lia. }
+  split; [exact A|]. split; [exact B|].
+  destruct (th2 s) as [|ins rest] eqn:C; [reflexivity|]. exfalso.
+  destruct ins; try discriminate.
+  - (* waits for the promise to be parked: it has been *)
+    rewrite B in I7. cbn [cnt p_xw Nat.add] in I7.
+    destruct (parked s); [discriminate|]. cbn [b2n] in I7. specialize (I7 eq_refl). lia.
+  - (* the late resolver: either the converter forwarded the promise or the outer future is ready *)
+    destruct I as [I1 I2 I3 I4 I5 I6 _ I8 I9 I10 I11 I12 Itok Iph IphB Iowc Ip4 Irp Ioht Iocc I13 Ioh Iop0 Idec Iow0 Iow1 Iow2 I14 I15 I16 I17 I18 I19 I20 I21 I22 I23 I24 I25 I26 I27 I28 I29 I30 I31 I32 I33 I34 I35].
+    unfold N in *. rewrite A, B, C in *.
+    destruct Iow2 as [W|W]; [|cbn [cnt p_ow] in W; lia]. inversion W; subst rest. cbn [cnt p_claim p_res p_dtk p_cvA p_cvB p_cvC p_cvP p_cvD p_cvR p_ow p_oc Nat.add] in *.
+    assert (O : owner s = false) by (destruct (owner s); [cbn [b2n] in I1; lia|reflexivity]). rewrite O in *. cbn [b2n Nat.add] in *.
+    assert (S1 : slot s = SReady) by (destruct (slot s); cbn [rdy] in I2; try discriminate; reflexivity).
+    rewrite S1 in *. cbn [rdy sub Nat.add] in *.
+    assert (F : nfire s = 1) by lia. rewrite F in *. rewrite Nat.mul_1_r in *.
+    assert (RP : rp c = true) by (destruct (rp c); [reflexivity|cbn [b2n] in Iowc; lia]).
+    assert (CV1 : cv c = 1).
+    { unfold rp in RP. apply andb_prop in RP. destruct RP as [RP _]. unfold cv. rewrite RP. reflexivity. }
+    rewrite CV1 in *.
+    destruct (oheld s); [discriminate|]. cbn [on] in *.
+    assert (NR : nores s = 1) by lia. rewrite NR in I14.
+    destruct (oslot s); cbn [rdy] in I14; try discriminate.
 Qed.
 
 Record Final (c : cfg) (s : st) : Prop := {
@@ -112,13 +79,17 @@ Record Final (c : cfg) (s : st) : Prop := {
 Theorem terminal_final c s : valid c = true -> reachable c s -> terminal s -> Final c s.
 Proof.
   intros V R T. destruct (terminal_done c s V R T) as (A & B & C).
-  destruct (inv_reachable c s V R) as [I1 I2 I3 I4 I5 I6 I7 I8 I9 I10 I11 I12 I13 I14 I15 I16 I17 I18 I19 I20 I21 I22 I23 I24 I25 I26 I27 I28 I29 I30 I31 I32 I33 I34 I35].
+  destruct (inv_reachable c s V R) as [I1 I2 I3 I4 I5 I6 I7 I8 I9 I10 I11 I12 Itok Iph IphB Iowc Ip4 Irp Ioht Iocc I13 Ioh Iop0 Idec Iow0 Iow1 Iow2 I14 I15 I16 I17 I18 I19 I20 I21 I22 I23 I24 I25 I26 I27 I28 I29 I30 I31 I32 I33 I34 I35].
   unfold N in *. rewrite A, B, C in *. cbn [cnt Nat.add] in *.
   assert (O : owner s = false) by (destruct (owner s); [cbn [b2n] in I1; lia|reflexivity]).
   rewrite O in *. cbn [b2n Nat.add] in *.
   assert (S1 : slot s = SReady) by (destruct (slot s); cbn [rdy] in I2; try discriminate; reflexivity).
   rewrite S1 in *. cbn [rdy sub Nat.add] in *.
   assert (F : nfire s = 1) by lia. rewrite F in *. rewrite Nat.mul_1_r in *.
+  assert (OP : oprom s = false) by (destruct (oprom s); [cbn [b2n] in I12; lia|reflexivity]).
+  assert (PH : pheld s = false) by (destruct (pheld s); [cbn [b2n] in Iph; lia|reflexivity]).
+  assert (OH : on (oheld s) = 0) by lia.
+  rewrite OP, PH, OH in *. cbn [b2n Nat.add] in *.
   assert (OS : cv c = 1 -> oslot s = SReady).
   { intros Q. destruct (oslot s); cbn [rdy] in I14; try reflexivity; lia. }
   constructor; try assumption; try lia; auto.
@@ -127,7 +98,6 @@ Proof.
     lia.
   - destruct (isv (payload s)); lia.
   - intros Q. unfold cv in *. rewrite Q in *. cbn [b2n] in *. split; [apply OS; reflexivity|apply I17; lia].
-  - destruct (oprom s); [|reflexivity]. cbn [b2n] in I12. lia.
 Qed.
 
 (* the user callback is entered at most once in every reachable state ... *)
@@ -176,7 +146,7 @@ Proof.
   { destruct (Nat.eqb (ndeliv s) 1); [|destruct H]. destruct H as [H|[]]. discriminate. }
   destruct (atomic_cb c && Nat.eqb (nfire s) 1) eqn:Q; [|destruct H].
   assert (P : payload s = wout c s).
-  { destruct (inv_reachable c s V R) as [_ I2 I3 _ _ I6 _ _ _ _ _ _ _ _ _ _ _ _ _ _ _ _ _ _ _ _ _ _ _ _ _ _ _ _ _].
+  { pose proof (inv_reachable c s V R) as II. pose proof (i_res c s II) as I2. pose proof (i_pay c s II) as I3. pose proof (i_fired c s II) as I6.
     apply I3. apply andb_prop in Q. destruct Q as [_ Q]. apply Nat.eqb_eq in Q. rewrite Q in I6.
     destruct (slot s); cbn [rdy] in *; try lia. destruct (owner s); [cbn [b2n] in I2; lia|reflexivity]. }
   unfold cb_log in H. cbn [map app] in H.
@@ -196,7 +166,8 @@ Theorem winner_facts c s : valid c = true -> reachable c s ->
   (c_k2 c <> None -> owner s = false -> (ret1 s = Some true /\ ret2 s <> Some true) \/ (ret2 s = Some true /\ ret1 s <> Some true)).
 Proof.
   intros V R.
-  destruct (inv_reachable c s V R) as [_ _ _ _ _ _ _ _ _ _ _ _ _ _ _ _ _ _ _ _ _ I22 I23 I24 I25 _ _ I28 I29 I30 I31 _ _ _ _].
+  pose proof (inv_reachable c s V R) as II. pose proof (i_won0 c s II) as I22. pose proof (i_won c s II) as I23. pose proof (i_ret1 c s II) as I24. pose proof (i_ret2 c s II) as I25.
+  pose proof (i_c0 c s II) as I28. pose proof (i_c2k c s II) as I29. pose proof (i_r2k c s II) as I30. pose proof (i_w1 c s II) as I31.
   unfold wout, kind_of. split; [|split; [|split; [|split]]].
   - intros A B. apply I24 in A. apply I25 in B. congruence.
   - intros A. apply I24 in A. rewrite A. reflexivity.
@@ -217,7 +188,7 @@ Theorem released_once c s : valid c = true -> reachable c s ->
   (frees s >= 1 -> atomic_cb c = true -> exists pre t, log s = pre ++ cb_log c (payload s) t) /\
   (terminal s -> frees s = allocs s).
 Proof.
-  intros V R. destruct (inv_reachable c s V R) as [_ _ _ I4 _ I6 _ _ I9 I10 _ _ _ _ _ _ _ _ _ _ _ _ _ _ _ _ _ _ _ _ _ _ _ _ _].
+  intros V R. pose proof (inv_reachable c s V R) as II. pose proof (i_dtk c s II) as I4. pose proof (i_fired c s II) as I6. pose proof (i_alloc c s II) as I9. pose proof (i_free c s II) as I10.
   assert (NF : nfire s <= 1) by (destruct (slot s); cbn [rdy] in I6; lia).
   repeat split.
   - rewrite I9. destruct (nfire s) as [|[|n]]; lia.
@@ -251,10 +222,11 @@ Theorem conv_safe c s : valid c = true -> reachable c s ->
   nores s <= 1 /\ nconv s <= b2n (isv (payload s)) /\ ndeliv s <= nores s /\
   (oslot s = SReady -> opayload s = conv_result c (payload s)).
 Proof.
-  intros V R. destruct (inv_reachable c s V R) as [_ _ _ _ _ I6 _ _ _ _ I11 _ _ I14 _ _ I17 I18 I19 _ _ _ _ _ _ _ _ _ _ _ _ _ _ _ _].
+  intros V R. pose proof (inv_reachable c s V R) as II. pose proof (i_fired c s II) as I6. pose proof (i_tok c s II) as Itok. pose proof (i_nores c s II) as I14. pose proof (i_opay c s II) as I17. pose proof (i_nconv c s II) as I18. pose proof (i_ndeliv c s II) as I19. pose proof (i_stage c s II) as I11.
   assert (NF : nfire s <= 1) by (destruct (slot s); cbn [rdy] in I6; lia).
   assert (CV : cv c * nfire s <= 1).
   { unfold cv, b2n. destruct (is_conv c); lia. }
+  assert (CV1 : cv c <= 1) by (unfold cv, b2n; destruct (is_conv c); lia).
   repeat split; try lia.
   - destruct (isv (payload s)); cbn [b2n]; lia.
   - intros Q. rewrite Q in I14. cbn [rdy] in I14. apply I17. lia.
@@ -293,36 +265,7 @@ Proof.
   apply r_step; assumption.
 Qed.
 
-(* ---------- termination: every step consumes potential, so every schedule ends after at most `weight (init c)` steps ---------- *)
-Definition w (i : instr) : nat :=
-  match i with
-  | IPriv _ | IPark _ | IXWait | ICvWalk | IRel => 1
-  | ICvResolve => 2 | ICvSet _ _ => 3 | ICvReady _ => 4 | ICvClaim => 5
-  | IWalk => 7 | ISub _ => 8 | IReady => 9 | IResolve => 8 | IClaim _ | IDtorP => 9
-  | IOSub _ => 2 | IOReady => 3
-  end.
-Fixpoint wl (l : list instr) : nat := match l with [] => 0 | x :: t => w x + wl t end.
-Definition weight (s : st) : nat := wl (th0 s) + wl (th1 s) + wl (th2 s).
-
-Lemma weight_step c s i : Inv c s -> enabled s i = true -> weight (fst (tstep c s i)) < weight s.
-Proof.
-  intros I E. unfold tstep, enabled, weight in *.
-  destruct I as [I1 I2 I3 I4 I5 I6 I7 I8 I9 I10 I11 I12 I13 I14 I15 I16 I17 I18 I19 I20 I21 I22 I23 I24 I25 I26 I27 I28 I29 I30 I31 I32 I33 I34 I35].
-  unfold N in *.
-  assert (CV : cv c <= 1) by (unfold cv, b2n; destruct (is_conv c); lia).
-  assert (NF1 : nfire s <= 1) by (destruct (slot s); cbn [rdy] in I6; lia).
-  assert (CVN : cv c * nfire s <= nfire s) by (unfold cv, b2n; destruct (is_conv c); lia).
-  destruct i as [|[|[|i]]]; cbn [thr] in *; [| | |discriminate].
-  all: dth s.
-  all: destruct ins; unfold exec, fire, deliver.
-  all: red1; dflags s; red1.
-  all: try (dpay s).
-  all: try match goal with g : bool |- _ => destruct g end.
-  all: red1; cbn [wl w app].
-  all: redch.
-  all: try lia.
-Qed.
-
+(* ---------- termination (the potential function and its step lemma are in AdaptersWeight.v) ---------- *)
 Lemma wl_pos l : l <> [] -> wl l >= 1.
 Proof. destruct l as [|x t]; [congruence|]. intros _. cbn [wl]. destruct x; cbn [w]; lia. Qed.
 
@@ -350,18 +293,18 @@ Proof.
     apply r_step; assumption.
 Qed.
 
-Lemma weight_init c : valid c = true -> weight (init c) <= 80.
+Lemma weight_init c : valid c = true -> weight (init c) <= 90.
 Proof.
   destruct c as [ad mode stor k k2 ct cd]. unfold valid. cbn [c_mode c_stor c_ad c_k2 is_mk].
   intros V.
   destruct mode as [|[|[|[|m]]]]; try (cbn in V; rewrite ?andb_false_r in V; discriminate);
   destruct ad; try (cbn in V; rewrite ?andb_false_r in V; discriminate);
   destruct stor as [|[|[|[|[|st]]]]]; try (cbn in V; rewrite ?andb_false_r in V; discriminate);
-  destruct k2 as [kk|]; destruct k; cbn; lia.
+  destruct k2 as [kk|]; destruct k; cbn; try (destruct (Nat.eqb ct 4)); cbn; lia.
 Qed.
 
-(* every schedule of every valid configuration ends, within 80 steps, in a terminal state *)
-Theorem every_schedule_terminates c sched fuel : valid c = true -> 80 <= fuel ->
+(* every schedule of every valid configuration ends, within 90 steps, in a terminal state *)
+Theorem every_schedule_terminates c sched fuel : valid c = true -> 90 <= fuel ->
   terminal (fst (run_sched c fuel (init c) sched [])).
 Proof.
   intros V F. apply run_terminates; [exact V|apply r_init|]. pose proof (weight_init c V). lia.
